@@ -119,13 +119,18 @@ pub fn builtin_exp(x: f64) -> f64 {
 
 fn frexp(s: f64) -> (f64, i16) {
 	if s == 0.0 {
-		(s, 0)
-	} else {
-		let lg = s.abs().log2();
-		let x = (lg - lg.floor() - 1.0).exp2();
-		let exp = lg.floor() + 1.0;
-		(s.signum() * x, exp as i16)
+		return (s, 0);
 	}
+	let bits = s.to_bits();
+	let exp_field = ((bits >> 52) & 0x7ff) as i16;
+	if exp_field == 0 {
+		// Subnormal: scale by 2^64 into the normal range first (exact)
+		let (m, e) = frexp(s * f64::from_bits(0x43f0_0000_0000_0000));
+		return (m, e - 64);
+	}
+	// Keep sign and fraction, replace the exponent so that 0.5 <= |m| < 1
+	let m = f64::from_bits((bits & 0x800f_ffff_ffff_ffff) | (1022 << 52));
+	(m, exp_field - 1022)
 }
 
 #[builtin]
